@@ -27,7 +27,7 @@ CAPS = ("and who already tests with unusual and algebraically structured inputs,
         "of a history, sources whose error type is zero-sized, generators embedded with serde(flatten) / tagged / untagged enums, "
         "twins at the same buffer index in different blocks, every probe of test_timer stuck or backward, newly added Default impls, "
         "timer readings equal to the previous output, real threads racing through the seeding code, operations that hang or kill "
-        "the process, histories whose snapshots are restored twice, timer readings pinned to special VALUES (all ones, sign boundaries, powers of two), hundreds of backward probes in one timer test, operations executed from a thread-local destructor while their thread exits, the != operator next to ==, the system's calendar date set to 1970, 2038, 2106, 2262, 2554 or later while JitterRng::new() runs, billions of HC-128 words searched for zero / repeated words with short calls made right there, results buffers primed with chosen contents before generate(), public block cores sharing one scratch buffer, other targets interpreted by Miri (aarch64, s390x, i686, mips, Windows, macOS), builds with --cfg fuzzing, builds with every ALL_CAPS string literal of the sources set in the BUILD environment (option_env!), bincode with options() (varint, big-endian), damaged snapshots in which an array arrives as a string with multi-byte characters, pairs of generators that handed out the same number of bytes through different numbers of words, 2^16 collections in one process under a logger that accepts everything, runs repeated from thread-local destructors, sources whose TYPE is zero-sized (handles to state kept elsewhere), all pairs of thousands of unrelated generators compared with ==, a self-describing serialisation format that is not human-readable (also through flatten / tagged / untagged embeddings), a logger whose enabled() refuses the library's targets while the max level admits Trace, Debug text compared after every single block of 2^30 blocks, the real-clock constructor's Ok/Err compared next to other instances' failing timer tests ")
+        "the process, histories whose snapshots are restored twice, timer readings pinned to special VALUES (all ones, sign boundaries, powers of two), hundreds of backward probes in one timer test, operations executed from a thread-local destructor while their thread exits, the != operator next to ==, the system's calendar date set to 1970, 2038, 2106, 2262, 2554 or later while JitterRng::new() runs, billions of HC-128 words searched for zero / repeated words with short calls made right there, results buffers primed with chosen contents before generate(), public block cores sharing one scratch buffer, other targets interpreted by Miri (aarch64, s390x, i686, mips, Windows, macOS), builds with --cfg fuzzing, builds with every ALL_CAPS string literal of the sources set in the BUILD environment (option_env!), bincode with options() (varint, big-endian), damaged snapshots in which an array arrives as a string with multi-byte characters, pairs of generators that handed out the same number of bytes through different numbers of words, 2^16 collections in one process under a logger that accepts everything, runs repeated from thread-local destructors, sources whose TYPE is zero-sized (handles to state kept elsewhere), all pairs of thousands of unrelated generators compared with ==, a self-describing serialisation format that is not human-readable (also through flatten / tagged / untagged embeddings), a logger whose enabled() refuses the library's targets while the max level admits Trace, Debug text compared after every single block of 2^30 blocks, the real-clock constructor's Ok/Err compared next to other instances' failing timer tests, length-prefixed serialisation formats that trust the declared sequence / tuple length ")
 for f in sorted(glob.glob(f"/tmp/seed/C??-{prev}.full.txt")):
     pid = os.path.basename(f)[:3]
     s = open(f).read().replace(f"{pid}-{prev}", f"{pid}-{new}")
